@@ -274,6 +274,23 @@ theorem csvNames_eq_xmlNames (log : List LogEntry) (rows : List CsvRow)
     · have : ¬ e.result.take 4 = pass := fun h4 => hp (hres e (by simp) h4)
       simp [hp, this]
 
+theorem csvNames_eq_spec (rows : List CsvRow)
+    (h : ∀ r ∈ rows, (r.result.take 4 = pass → r.result = pass) ∧ r.file.length ≤ 264) :
+    csvNames rows = (rows.filter (fun r => r.result = pass)).map (fun r => basenameSpec r.file) := by
+  induction rows with
+  | nil => rfl
+  | cons r rs ih =>
+    have hr := h r (by simp)
+    have ih' := ih (fun x hx => h x (by simp [hx]))
+    unfold csvNames at *
+    rw [List.filterMap_cons, ih', List.filter_cons]
+    have hl : r.file.take 264 = r.file := List.take_of_length_le hr.2
+    by_cases hp : r.result = pass
+    · have h4 : List.take 4 pass = pass := rfl
+      simp [hp, h4, hl, basename_eq_spec]
+    · have : ¬ r.result.take 4 = pass := fun h4 => hp (hr.1 h4)
+      simp [hp, this]
+
 /-! ## method file vs log -/
 
 theorem sortByInt_of_perm_strict (samples planned : List Sample) (hperm : samples.Perm planned)
